@@ -11,7 +11,7 @@
     line_index.rs, to_proto.rs, from_proto.rs (explicit Panic outcomes). *)
 From Coq Require Import List NArith Bool.
 From TG.Model Require Import Chars LineIndex.
-From TG.Proofs Require Import LineIndexProofs LineIndexSpec LineIndexImpl LineIndexC10.
+From TG.Proofs Require Import LineIndexProofs LineIndexSpec LineIndexImpl LineIndexFloor LineIndexC10.
 Import ListNotations.
 Open Scope N_scope.
 
@@ -116,6 +116,17 @@ Theorem C10_impl_wrappers : forall t : text, bytes t <= u32_max ->
        Ok ((pos_of t a, pos_of t b), (pos_of t a, pos_of t b))).
 Proof. exact to_proto_wrappers_ok. Qed.
 
+(** Beyond the property: the model at offsets that are not character boundaries.  Strictly inside a multi-byte
+    character: the position of the start of that character; past the end: the position of the end.  With
+    C10_impl_correct the model of to_proto::position is characterised at EVERY offset. *)
+Theorem C10_impl_every_offset : forall t : text, bytes t <= u32_max ->
+  (forall p c s k, t = p ++ c :: s -> 0 < k < utf8_len c ->
+     to_proto_position (mkLI t (encode t) (line_starts t)) (bytes p + k) = Ok (pos_of t (bytes p))) /\
+  (forall o, bytes t <= o -> to_proto_position (mkLI t (encode t) (line_starts t)) o = Ok (pos_of t (bytes t))) /\
+  (forall o, on_char_boundary t o \/
+             (exists p c s k, t = p ++ c :: s /\ 0 < k < utf8_len c /\ o = bytes p + k) \/ bytes t < o).
+Proof. exact to_proto_position_every_offset. Qed.
+
 (** pieces of the refinement, individually *)
 Theorem C10_impl_new : forall t : text, bytes t <= u32_max ->
   li_new t = Ok (mkLI t (encode t) (line_starts t)).
@@ -174,6 +185,7 @@ Print Assumptions C10_monotone.
 Print Assumptions C10_impl_correct.
 Print Assumptions C10_impl_folding_range.
 Print Assumptions C10_impl_wrappers.
+Print Assumptions C10_impl_every_offset.
 Print Assumptions C10_impl_new.
 Print Assumptions C10_impl_partitioned.
 Print Assumptions C10_impl_char_boundary.
